@@ -189,6 +189,7 @@ protected:
     bool subscribe(awaiter *aw) {
         //so subscribe to _requests
         aw->subscribe(_requests);
+        COCLS_VERIF_SYNC("mutex.subscribe.published");
         //now check result of _next, which gives as hint, how lock operation ended
         //if the _next is null, the lock was unlock
         if (aw->_next== nullptr) [[likely]] {
